@@ -135,6 +135,31 @@ def check_controller(res, T, cname, unit, via_clone=False):
         res.sample({"type": T, "controller": cname, "unit": unit, "kind": sc.kind, "values_enumerated": n, "via_clone": via_clone,
                     "observed_min": {"value": lo, "stored": get_raw(cname) if set_raw(cname, sc.stored(lo, unit)) is None else None, "pattern": pattern_value(mod, lo)},
                     "observed_max": {"value": hi, "stored": get_raw(cname) if set_raw(cname, sc.stored(hi, unit)) is None else None, "pattern": pattern_value(mod, hi)}})
+    if lo_hi is not None and cname != "user_defined_1" and sc.kind != "dependent":
+        # the same numbers handed over as int SUBCLASS instances (an application's IntEnum, a typed int): the encodings depend on
+        # the number and the controller, not on the Python type carrying the number
+        import enum as _enum
+        lo, hi = lo_hi
+        picks = sorted({lo, hi, (lo + hi) // 2, min(hi, lo + 1)})
+        App = _enum.IntEnum("App", {f"V{i}": v for i, v in enumerate(picks)})
+
+        class _Int(int):
+            pass
+        for member in list(App) + [_Int(v) for v in picks]:
+            v = int(member)
+            res.count("int_subclass_encodings")
+            try:
+                fresh = cls()
+                setattr(fresh, cname, member)
+                raw_m = fresh.get_raw(cname)
+                pat_m, pat_i = pattern_value(fresh, member), pattern_value(fresh, v)
+            except Exception as e:
+                res.violation(f"C10:encode:{T}.{cname}:int-subclass-raises", f"{K}: value {member!r} raised {e!r}", {"type": T, "controller": cname, "value": v})
+                break
+            if raw_m != sc.stored(v, unit) or pat_m != pat_i or type(pat_m) is not int and not isinstance(pat_m, int):
+                res.violation(f"C10:encode:{T}.{cname}:int-subclass", f"{K}: {member!r} stores as {raw_m!r} (documented {sc.stored(v, unit)}), pattern form {pat_m!r} (for the plain int {pat_i!r})",
+                              {"type": T, "controller": cname, "value": v})
+                break
     res.evaluations += n
     res.distinct += n
     res.count("pairs_checked", n)
